@@ -23,6 +23,7 @@ variable (n : Node) (tp : Nat → TpDev) (sl : List Slot) (out : List Delivery) 
 @[simp] theorem upd_claimMode : (n.upd tp sl out fs rxq).s.claimMode = n.s.claimMode := rfl
 @[simp] theorem upd_onlyKnown : (n.upd tp sl out fs rxq).onlyKnown = n.onlyKnown := rfl
 @[simp] theorem upd_info : (n.upd tp sl out fs rxq).info = n.info := rfl
+@[simp] theorem upd_bamGap : (n.upd tp sl out fs rxq).bamGap = n.bamGap := rfl
 @[simp] theorem upd_conf : (n.upd tp sl out fs rxq).conf = n.conf := rfl
 @[simp] theorem upd_ring : (n.upd tp sl out fs rxq).s.ring = n.s.ring := rfl
 @[simp] theorem upd_pushes (gs : List Frame) : (n.upd tp sl out fs rxq).pushes gs = n.upd tp sl out (fs ++ gs) rxq := rfl
@@ -81,7 +82,7 @@ theorem pendingTP_info (n : Node) (i : Nat) : (pendingTP n i).info = n.info := b
   · rw [if_pos h1]
     by_cases h2 : (n.tp i).pend.dst = 0xff
     · rw [if_pos h2]
-      by_cases h3 : hasAllSent (setTimer (sendTPDT n i).1 i 50) i = true
+      by_cases h3 : hasAllSent (setTimer (sendTPDT n i).1 i n.bamGap) i = true
       · rw [if_pos h3]; rfl
       · rw [if_neg h3]; rfl
     · rw [if_neg h2]; rfl
@@ -102,7 +103,7 @@ theorem pendingTP_tp_other (n : Node) (i k : Nat) (hk : k ≠ i) : (pendingTP n 
   · rw [if_pos h1]
     by_cases h2 : (n.tp i).pend.dst = 0xff
     · rw [if_pos h2]
-      by_cases h3 : hasAllSent (setTimer (sendTPDT n i).1 i 50) i = true
+      by_cases h3 : hasAllSent (setTimer (sendTPDT n i).1 i n.bamGap) i = true
       · rw [if_pos h3]; simp [endSendTP, setTimer, sendTPDT, emit, Node.setTp, hk]
       · rw [if_neg h3]; simp [setTimer, sendTPDT, emit, Node.setTp, hk]
     · rw [if_neg h2]; simp [endSendTP, Node.setTp, hk]
